@@ -37,7 +37,12 @@ extern MPT_STRUCT(buffer) *mpt_array_reserve(MPT_STRUCT(array) *arr, size_t len,
 		}
 		/* total data must align with traits size */
 		if ((align = len % traits->size)) {
-			len += traits->size - align;
+			align = traits->size - align;
+			if (len > (SIZE_MAX - align)) {
+				errno = EINVAL;
+				return 0;
+			}
+			len += align;
 		}
 	}
 	/* check compatibility of existing data */
